@@ -809,7 +809,11 @@ func (c *Ctx) writtenRefs(t, base Term, limit int, depth int) ([]Term, bool) {
 	}
 	if info, ok := c.storeInfo[t.S]; ok {
 		// the reference must be a term that existed before the loop body was executed
-		if n := defNumber(info.idx.S); n < 0 || n > limit {
+		if n := defNumber(info.idx.S); n > limit && (strings.Contains(info.idx.S, "_new_") || strings.Contains(info.idx.S, "_mk_") || strings.Contains(info.idx.S, "_grow")) {
+			// an object allocated inside the loop body: it does not exist before the loop, and what
+			// the loop leaves in it is reachable afterwards only through havocked pointers
+			return c.writtenRefs(info.base, base, limit, depth+1)
+		} else if n < 0 || n > limit {
 			return nil, false
 		}
 		rest, ok := c.writtenRefs(info.base, base, limit, depth+1)
